@@ -448,3 +448,52 @@ func TestRandom(t *testing.T) {
 		runCase(rt, c)
 	})
 }
+
+// TestCancelEveryShape: every traversal shape is stopped early in both ways the
+// property names - the client cancels after the first row, and a limit(1) is satisfied -
+// on graphs large enough that every internal queue of the shape is full at that moment.
+// The stream must close and every goroutine of the run must be released.
+func TestCancelEveryShape(t *testing.T) {
+	if _, ok := pbt.ReplayFile(); ok {
+		t.Skip("replay mode")
+	}
+	graphs := []Case{
+		{Backend: "badger", Family: "star", N: 1300},
+		{Backend: "badger", Family: "fan", N: 34, M: 40},
+		{Backend: "mem", Family: "star", N: 1300, HubLast: true},
+	}
+	if pbt.Thorough() {
+		graphs = append(graphs, Case{Backend: "badger", Family: "star", N: 6100, HubLast: true}, Case{Backend: "badger", Family: "chain", N: 2200})
+	}
+	i := 0
+	for _, g := range graphs {
+		for _, sh := range shapes() {
+			last := sh[len(sh)-1]
+			if last.Op == "limit" {
+				continue
+			}
+			variants := []Case{}
+			c := g
+			c.Steps, c.Cancel = sh, 1
+			variants = append(variants, c)
+			if last.Op != "count" && last.Op != "aggregate" {
+				l := g
+				l.Steps = append(append([]model.Step{}, sh...), model.Step{Op: "limit", N: 1})
+				l.Cancel = -1
+				variants = append(variants, l)
+			}
+			for _, v := range variants {
+				i++
+				if !pbt.ShardOwns(i) {
+					continue
+				}
+				pbt.Current(t, v)
+				if pbt.WantSample(t) {
+					pbt.Sample(t, v)
+				}
+				runCase(t, v)
+			}
+		}
+	}
+	pbt.Exhaustive(t)
+}
